@@ -531,7 +531,12 @@ var _ = strings.Contains
 // argument for p is a load of one and the same (by name) struct field of the
 // caller's receiver, that field; else nil. This is how the parameters of the
 // primitive pipelines (tests, defaultVal, required, catch, ...) get their role.
-func (P *Prog) paramBoundField(p *ssa.Parameter) *types.Var {
+func (P *Prog) paramBoundField(p *ssa.Parameter) *types.Var { return P.paramBoundFieldD(p, 0) }
+
+// paramBoundFieldD: an argument that is itself a parameter of the caller (a
+// pipeline handing its coercer on to a phase helper) is followed to the
+// caller's own call sites.
+func (P *Prog) paramBoundFieldD(p *ssa.Parameter, depth int) *types.Var {
 	fn := p.Parent()
 	idx := -1
 	for i, q := range fn.Params {
@@ -557,6 +562,11 @@ func (P *Prog) paramBoundField(p *ssa.Parameter) *types.Var {
 				return
 			}
 			_, f := loadOfField(cv(args[idx]))
+			if f == nil {
+				if q, isP := cv(args[idx]).(*ssa.Parameter); isP && q != p && depth < 3 {
+					f = P.paramBoundFieldD(q, depth+1)
+				}
+			}
 			if f == nil {
 				bad = true
 				return
@@ -728,9 +738,12 @@ func returnedClosure(fn *ssa.Function) *ssa.Function {
 		}
 		for _, rv := range rt.Results {
 			if mc, ok := cvi(rv).(*ssa.MakeClosure); ok {
-				if f, ok := mc.Fn.(*ssa.Function); ok && f != out {
-					out = f
-					n++
+				if f, ok := mc.Fn.(*ssa.Function); ok {
+					f = boundMethodTarget(f)
+					if f != out {
+						out = f
+						n++
+					}
 				}
 			}
 		}
@@ -739,6 +752,27 @@ func returnedClosure(fn *ssa.Function) *ssa.Function {
 		return nil
 	}
 	return out
+}
+
+// boundMethodTarget: for the synthetic wrapper of a method value
+// (`requestValues{r}.fromForm`), the method it calls; f itself otherwise. A
+// method value is a closure over its receiver: its body is the method's.
+func boundMethodTarget(f *ssa.Function) *ssa.Function {
+	if f == nil || !strings.HasPrefix(f.Synthetic, "bound method wrapper") {
+		return f
+	}
+	var target *ssa.Function
+	n := 0
+	eachInstr(f, func(_ *ssa.BasicBlock, _ int, in ssa.Instruction) {
+		if ci := callOf(in); ci != nil && ci.static != nil {
+			target = ci.static
+			n++
+		}
+	})
+	if n == 1 && target.Blocks != nil {
+		return target
+	}
+	return f
 }
 
 // closureStoredToGlobal: the single closure fn stores into the named package-level variable.
